@@ -35,6 +35,10 @@ def cases(rng, tier):
         yield rvgen.sim_case(rng, "five", hazard=HAZARD, opts={"wide": i % 4 == 0}, trace=45, run=600, suite="sim-five")
     for i in range(n // 3):
         yield rvgen.chain_case(rng, "five", hazard=HAZARD, trace=30, run=300, dspec=rvgen.cache_spec(rng, "d", 0.3), suite="sim-five")
+    import props.c01 as c01
+    for c in c01.cross_cases(rng, tier, "five", HAZARD):        # the stage-split implementations on the boundary cross product
+        c.suite = "sim-five"
+        yield c
     for i in range(n // 10):
         yield rvgen.x0_dest_case(rng, "five", hazard=HAZARD, trace=30, run=300, dspec=rvgen.cache_spec(rng, "d", 0.5), suite="sim-five")
     for i in range(n // 6):
